@@ -9,6 +9,7 @@ import math
 
 from .. import absx, core, tlc
 from ..core import Part, Skip, observe
+from .c12 import NAMES
 
 MC_CFG = "CONSTANTS MaxSteps = %d\nDeviation = \"%s\"\nSPECIFICATION Spec\nINVARIANT EvaluatedInBox\nINVARIANT PopulationInBox\nCHECK_DEADLOCK FALSE\n"
 BOXES = {
@@ -100,7 +101,7 @@ class Operators(Part):
         rng = pyrandom.Random(case["cseed"])
         dim = rng.randint(1, 4)
         boxes = [BOXES[case["box"]]] + [BOXES[rng.choice(list(BOXES))] for _ in range(dim - 1)]
-        params = [{'name': 'x%d' % i, 'bounds': list(b)} for i, b in enumerate(boxes)]
+        params = [{'name': NAMES[i], 'bounds': list(b)} for i, b in enumerate(boxes)]
         p1 = [parent_value(rng, case["ppos"] if i == 0 else rng.choice(["AtLb", "NearLb", "Mid", "NearUb", "AtUb"]), b[0], b[1])
               for i, b in enumerate(boxes)]
         p2 = []
@@ -175,7 +176,7 @@ class Generators(Part):
         params = []
         for i in range(dim):
             # boxes narrower than the default rounding precision (1e-12) collapse under gen_number's rounding: not used for generators
-            p = {'name': 'x%d' % i, 'bounds': list(BOXES[rng.choice([b for b in BOXES if b not in ("denorm", "tinyneg")])])}
+            p = {'name': NAMES[i], 'bounds': list(BOXES[rng.choice([b for b in BOXES if b not in ("denorm", "tinyneg")])])}
             if case["precision"] and case["gen"] in ("random", "gen_vector") and (p['bounds'][1] - p['bounds'][0]) > 10 * case["precision"] \
                     and max(abs(p['bounds'][0]), abs(p['bounds'][1])) < 1e6:
                 p['precision'] = case["precision"]
